@@ -22,6 +22,7 @@ import (
 	"strings"
 	"syscall"
 	"testing"
+	"testing/fstest"
 	"time"
 
 	"github.com/miekg/dns"
@@ -283,15 +284,19 @@ func Gen(seed uint64, tier string) any {
 	case x < 21:
 		sc.Kind = "concurrent"
 	}
-	if r.IntN(20000) == 0 {
+	if r.IntN(3500) == 0 {
 		// one very long line: a $GENERATE whose text is a run of a million escaped characters (2.4 MB). Memory
 		// in proportion to the input is fine; a parser that needs a stack frame per character is not - the
 		// runtime ends the whole process when a goroutine's stack passes its limit, and that cannot be recovered
 		sc.Kind = "deep"
 		sc.Files = []File{{Name: "zones/deep.zone", Lines: []string{"$GENERATE 1-1 d <<5c61*0>> TXT x", "after 300 IN A 192.0.2.77"}}}
-		if r.IntN(2) == 0 {
+		switch r.IntN(3) {
+		case 0:
 			// ... or very many lines: 400 000 directives in a row none of which yields a record (6.4 MB)
 			sc.Kind = "deeplines"
+		case 1:
+			// ... or a very large include file: a record, 3 - 65 MiB of comment lines, another record
+			sc.Kind = "bigfile"
 		}
 		return sc
 	}
@@ -828,6 +833,8 @@ func Run(t *testing.T, scAny any, verbose bool) *core.Result {
 		runConcurrent(t, sc, res, logf)
 	case "deep", "deeplines":
 		runDeep(sc, res, logf)
+	case "bigfile":
+		runBigFile(sc, res, logf)
 	default:
 		runZone(sc, res, logf)
 	}
@@ -1587,6 +1594,54 @@ func selfIncludeThroughGenerate(sc *Scenario, res *core.Result, logf func(string
 }
 
 // runDeep: a $GENERATE line with 1.2 million escaped characters in its text. One record, then the next line.
+// runBigFile: an include file of many megabytes - a record, comment lines, another record. Memory and time in
+// proportion to the input are fine; what is behind the comments is part of the zone like what is in front of them.
+func runBigFile(sc *Scenario, res *core.Result, logf func(string, ...any)) {
+	mib := []int{17, 33, 33, 33, 65}[sc.RunSeed%5]
+	line := "; " + strings.Repeat("c", 1021) + "\n"
+	var b strings.Builder
+	b.Grow(mib<<20 + 4096)
+	b.WriteString("first 300 IN A 192.0.2.1\n")
+	for b.Len() < mib<<20+100 {
+		b.WriteString(line)
+	}
+	b.WriteString("last 300 IN A 192.0.2.2\n")
+	fsys := fstest.MapFS{"zones/big.zone": &fstest.MapFile{Data: []byte(b.String())}}
+	type result struct {
+		recs     []string
+		err, pan string
+	}
+	out, ok := guarded(3*limit, func() (r result) {
+		defer func() {
+			if p := recover(); p != nil {
+				r.pan = fmt.Sprintf("%v\n%s", p, libFrames(string(debug.Stack())))
+			}
+		}()
+		zp := dns.NewZoneParser(strings.NewReader("$INCLUDE /zones/big.zone\nafter 300 IN A 192.0.2.77\n"), "example.org.", "zones/main.zone")
+		zp.SetIncludeAllowed(true)
+		zp.SetIncludeFS(fsys)
+		for rr, ok := zp.Next(); ok && len(r.recs) < 10; rr, ok = zp.Next() {
+			r.recs = append(r.recs, rr.Header().Name)
+		}
+		if e := zp.Err(); e != nil {
+			r.err = e.Error()
+		}
+		return r
+	})
+	res.Bump("oracle.P3_large_include_file")
+	switch {
+	case !ok:
+		hang(res, fmt.Sprintf("parsing an include file of %d MiB", mib))
+	case out.pan != "":
+		res.Fail("P2", "panic:"+firstFrame(out.pan), "the parser panicked on an include file of %d MiB: %s", mib, out.pan)
+	case out.err == "" && strings.Join(out.recs, " ") != "first.example.org. last.example.org. after.example.org.":
+		res.Fail("P3", "records-lost", "an include file of %d MiB (a record, comment lines, a record) in a zone with one more record behind the $INCLUDE: the parser returned %v and no error", mib, out.recs)
+	}
+	logf("bigfile %d MiB: %v, err %q", mib, out.recs, out.err)
+	res.Nontrivial = true
+	res.Class = "bigfile/" + errClass(out.err)
+}
+
 func runDeep(sc *Scenario, res *core.Result, logf func(string, ...any)) {
 	txt := "$GENERATE 1-1 d" + strings.Repeat("\\a", 1200000) + " TXT x\nafter 300 IN A 192.0.2.77\n"
 	what := "a $GENERATE line with a million escaped characters"
